@@ -155,8 +155,15 @@ func (g *c12Gen) data(depth int) []byte {
 			body[i] = byte(g.rng.Intn(256))
 		}
 		ln := []byte{0x0a, byte(n + g.rng.Intn(2))}
-		if g.rng.Intn(4) == 0 {
+		switch g.rng.Intn(8) {
+		case 0, 1:
 			ln = c12NameBytes(false, 0, []string{g.seg()}) // length given by a named object
+		case 2:
+			ln = g.term(1) // length given by an expression
+		case 3:
+			if depth < 2 { // length operand that itself carries a package (Buffer / Package in TermArg position)
+				ln = g.data(depth + 1)
+			}
 		}
 		return c12Pkg([]byte{0x11}, g.width(), ln, body)
 	case k == 7 && depth < 2: // Package
@@ -570,6 +577,12 @@ func TestVerifC12Seeds(t *testing.T) {
 		_ = enc.Encode(map[string]interface{}{"name": name, "b": ints})
 	}
 	seen := map[string]bool{}
+	// directed seeds: a package-bearing object (Buffer / Package) in the TermArg position of another
+	// package-bearing construct, so that the PkgLength plans cover "inner package ends after the outer one"
+	for i, p := range c12DirectedSeeds() {
+		seen[string(p)] = true
+		emit(fmt.Sprintf("dir#%d", i), p)
+	}
 	for i, tries := 0, 0; i < nGen && tries < 100*nGen; tries++ {
 		p := c12ProgramOf(seed*1000003+int64(tries), 1+tries%4, tries%16, (tries/16)%10)
 		if len(p) < 6 || len(p) > maxLen || seen[string(p)] {
@@ -597,6 +610,23 @@ func TestVerifC12Seeds(t *testing.T) {
 				emit(fmt.Sprintf("%s#%d", tb, i), frags[k])
 			}
 		}
+	}
+}
+
+func c12DirectedSeeds() [][]byte {
+	nm := func(n string, v []byte) []byte { return c12Cat([]byte{0x08}, []byte(n), v) }
+	buf := func(size []byte, data ...byte) []byte { return c12Pkg([]byte{0x11}, 1, size, data) }
+	pkg := func(n byte, els ...[]byte) []byte { return c12Pkg([]byte{0x12}, 1, []byte{n}, c12Cat(els...)) }
+	meth := func(n string, body ...[]byte) []byte { return c12Pkg([]byte{0x14}, 1, []byte(n), []byte{0}, c12Cat(body...)) }
+	one, tail := []byte{0x01}, nm("A001", []byte{0x01})
+	inner := buf([]byte{0x0a, 2}, 0, 1)
+	return [][]byte{
+		c12Cat(nm("BUF0", buf(inner, 1)), tail),
+		c12Cat(nm("BUF1", buf(pkg(1, buf([]byte{0x0a, 1}, 7)), 2, 3)), tail),
+		c12Cat(nm("PKG0", c12Pkg([]byte{0x13}, 1, inner, one)), tail),
+		c12Cat(meth("M000", c12Pkg([]byte{0xa0}, 1, buf([]byte{0x0a, 1}, 1), []byte{0xa4, 0x01})), tail),
+		c12Cat(meth("M001", c12Pkg([]byte{0xa2}, 1, pkg(1, one), []byte{0xa5})), tail),
+		c12Cat(nm("BUF2", buf(c12Cat([]byte{0x72}, buf([]byte{0x0a, 1}, 1), one, []byte{0x60}), 9)), tail),
 	}
 }
 
